@@ -135,7 +135,7 @@ fn any_ctl() -> (Controller, CtlSetup) {
     (c, su)
 }
 
-//@ harness props=C03,C04 tier=quick level=full timeout=300
+//@ harness props=C03,C04 tier=quick level=full timeout=600
 //@ fn Controller::new
 #[kani::proof]
 #[kani::unwind(3)]
@@ -161,7 +161,7 @@ fn vq_c03_mgr_ctl_new_wiring() {
     kani::cover!(su.peer_bidi == MAX_STREAMS, "reach:two_pow_60");
 }
 
-//@ harness props=C03 tier=quick level=full timeout=300
+//@ harness props=C03 tier=quick level=full timeout=600
 //@ fn Controller::on_max_streams
 #[kani::proof]
 #[kani::unwind(3)]
@@ -184,7 +184,7 @@ fn vq_c03_mgr_ctl_on_max_streams_dispatch() {
     kani::cover!(m as i128 <= old.local(uni).peer_limit, "reach:ignored");
 }
 
-//@ harness props=C03,C12 tier=quick level=full timeout=400
+//@ harness props=C03,C12 tier=quick level=full timeout=600
 //@ fn Controller::poll_open_local_stream
 //@ fn Controller::on_open_stream
 //@ fn Controller::direction
@@ -223,7 +223,7 @@ fn vq_c03_mgr_ctl_poll_open_local_dispatch() {
     kani::cover!(r.is_ready() && old.local(uni).opened + 1 == old.local(uni).peer_limit, "reach:last_permitted_stream");
 }
 
-//@ harness props=C04 tier=quick level=bounded timeout=400 bound="streams<=2 opened by one frame"
+//@ harness props=C04 tier=quick level=bounded timeout=600 bound="streams<=2 opened by one frame"
 //@ fn Controller::on_open_remote_stream
 //@ fn Controller::on_open_stream
 //@ fn Controller::direction
@@ -242,6 +242,8 @@ fn vq_c04_mgr_ctl_on_open_remote_dispatch() {
     // up_to_2_60): with an advertised limit of exactly 2^60 the first id beyond the limit is not representable and
     // RemoteInitiated::on_remote_open_stream `.expect()`s it.
     kani::assume(old.remote(uni).peer_limit < MAX_STREAMS as i128);
+    // only ids that exist: index 2^60 has no representable stream id (4 * 2^60 > 2^62 - 1), a peer cannot name it
+    kani::assume(opened + k < MAX_STREAMS);
     let first = StreamId::nth(etype(!su.local_is_server), stype(uni), opened).unwrap();
     let max = StreamId::nth(etype(!su.local_is_server), stype(uni), opened + k).unwrap();
     let id = max.as_varint().as_u64() as i128;
@@ -274,7 +276,7 @@ fn vq_c04_mgr_ctl_on_open_remote_dispatch() {
     kani::cover!(old.remote(uni).peer_limit == MAX_STREAMS as i128 - 1, "reach:largest_admitted_limit");
 }
 
-//@ harness props=C03,C04 tier=quick level=full timeout=400
+//@ harness props=C03,C04 tier=quick level=full timeout=600
 //@ fn Controller::on_close_stream
 //@ fn Controller::direction
 #[kani::proof]
